@@ -590,7 +590,7 @@ func (p *Prog) traceBack(v ssa.Value, o traceOpts, visit func(ssa.Value) bool) {
 				if f := c.Call.StaticCallee(); f != nil && p.InPkg(f) && f.Blocks != nil {
 					for _, b := range f.Blocks {
 						if r := retOf(b); r != nil && y.Index < len(r.Results) {
-							rec(r.Results[y.Index], depth+1)
+							rec(retVal(r, y.Index), depth+1)
 						}
 					}
 					return
@@ -602,7 +602,7 @@ func (p *Prog) traceBack(v ssa.Value, o traceOpts, visit func(ssa.Value) bool) {
 				if f := y.Call.StaticCallee(); f != nil && p.InPkg(f) && f.Blocks != nil && f.Signature.Results().Len() == 1 {
 					for _, b := range f.Blocks {
 						if r := retOf(b); r != nil && len(r.Results) == 1 {
-							rec(r.Results[0], depth+1)
+							rec(retVal(r, 0), depth+1)
 						}
 					}
 				}
@@ -738,7 +738,7 @@ func returnsNonNilErrorFrom(b *ssa.BasicBlock) bool {
 		}
 		seen[x] = true
 		if r := retOf(x); r != nil {
-			return ei < len(r.Results) && !isNilConst(r.Results[ei])
+			return ei < len(r.Results) && !isNilConst(retVal(r, ei))
 		}
 		if len(x.Succs) == 0 {
 			return false
@@ -761,4 +761,34 @@ func (p *Prog) constOf(name string) (int64, bool) {
 	}
 	v, exact := constant.Int64Val(c.Val())
 	return v, exact
+}
+
+// retVal resolves result i of a return instruction: in functions with defer statements
+// go/ssa spills results into local allocations (`*r = v; rundefers; t = *r; return t`);
+// the value stored last in the same block is what is returned.
+func retVal(ret *ssa.Return, i int) ssa.Value {
+	if i >= len(ret.Results) {
+		return nil
+	}
+	v := ret.Results[i]
+	ld, ok := v.(*ssa.UnOp)
+	if !ok || ld.Op != token.MUL {
+		return v
+	}
+	al, ok := ld.X.(*ssa.Alloc)
+	if !ok {
+		return v
+	}
+	b := ret.Block()
+	for k := len(b.Instrs) - 1; k >= 0; k-- {
+		if st, ok := b.Instrs[k].(*ssa.Store); ok && st.Addr == ssa.Value(al) {
+			return st.Val
+		}
+	}
+	return v
+}
+
+// isRecoverBlock: the synthetic block returning the spilled results after a recovered panic.
+func isRecoverBlock(b *ssa.BasicBlock) bool {
+	return b.Parent().Recover == b
 }
